@@ -51,6 +51,26 @@ check("C01", "controller", CTL_TECH,
       "equal Controller!FullModel(cluster). Unstable divergences (nondeterminism) are left to C06.",
       CTL_NOTE, "DESIGN.md 6 C01")
 
+check("C05", "controller", CTL_TECH,
+      "After every batch of histories that mix partial and full resyncs with shard counts 0/1/3/5 TLC checks DiskExact on the recorded quiescent "
+      "point: the exact normal form of every *.cfg and referenced map/list file equals the one of a freshly started controller with the same "
+      "shard count, and no section is defined twice.",
+      CTL_NOTE, "DESIGN.md 6 C05")
+check("C06", "controller", CTL_TECH,
+      "Each cluster state (TLC-simulated and conflict-rich random ones) is configured by an incremental controller with a permuted batch and by "
+      "5 (thorough 9) freshly started controllers with shuffled List results and shuffled initial events; TLC checks Deterministic: all normal forms agree.",
+      CTL_NOTE + " Map-iteration effects are probabilistic: a dependency on iteration order can need several runs to show.", "DESIGN.md 6 C06")
+check("C07", "controller", CTL_TECH + "; loader facts judged by HAConfig!WellFormed",
+      "HAConfig!WellFormed (references resolve to exactly one section, no duplicate section, referenced files written, unique server names/ids, "
+      "path ids defined, auth-proxy ports unique) is evaluated by TLC on the facts of every configuration written by incremental and fresh controllers "
+      "over targeted histories (missing services/secrets, no endpoints, ssl-passthrough, all auth kinds, tcp services, strict-host, no default backend).",
+      CTL_NOTE + " Directive syntax is not checked (no HAProxy binary).", "DESIGN.md 6 C07")
+check("C12", "controller", CTL_TECH + "; failure points injected by the harness (EISDIR on file writes, socket fault plan, failed reloads)",
+      "TLC proposes histories whose reconciliations are hit at one of 11 failure points; after the failure the harness runs the retry the controller "
+      "schedules itself (same queue item, empty batch; reload queue self re-add) and TLC checks RetrySucceeds, Converged (files == fresh controller) "
+      "and RunningOK (running HAProxy == files).",
+      CTL_NOTE + " File write faults are injected by replacing the target by a directory (needs root).", "DESIGN.md 6 C12")
+
 NOT_BUILT = "check not built yet (planned, DESIGN.md section 6); no claim made until the check exists"
 
 
